@@ -19,8 +19,8 @@ EXPLANATION = (
     "FeatureListParser.parse evaluated on concrete texts by constant folding (re, os.path, glob are the stdlib's): "
     "FILE, FILE:LINE, padded, drive-letter and colon-in-directory forms; a list file with comments, indented comments, "
     "blank lines, padded names, relative and absolute paths, with and without a base directory.")
-NOT_DECIDED = ("the predecessor arithmetic on line numbers (bisect(...) - 1, clamping): any rule strong enough to catch an "
-               "off-by-one would also reject equivalent rewrites; wildcard expansion in list files (file system); grouping of locations in parse_features beyond L8")
+NOT_DECIDED = ("line databases beyond the sampled one (L3 evaluates select_run_item_by_line on one concrete database, every line from -1 to "
+               "past the end, asked twice); wildcard expansion in list files (file system); grouping of locations in parse_features beyond L8")
 TECHNIQUE = "static analysis: abstract evaluation of the selection code on model tokens (identity vs equality semantics of sets/lists, truth tables), ladder-order rule over the resolved class hierarchy, field-reset rule; static constant propagation of the string-level glue (the source interpreted on enumerated literal inputs, stdlib calls folded) against oracles written in the rule"
 
 
@@ -48,5 +48,5 @@ def t_loc(chk, ix):
 
 def run(chk, ix, tier):
     t_loc(chk, ix)
-    for r, n in (("B1", 1), ("B4", 1), ("L1", 4), ("L3", 2), ("L4", 6), ("L6", 3), ("L7", 8), ("L8", 3), ("L9", 11), ("L10", 3), ("P3", 12), ("RF1", 1), ("G4", 16)):
+    for r, n in (("B1", 1), ("B4", 1), ("L1", 4), ("L3", 17), ("L4", 6), ("L6", 3), ("L7", 8), ("L8", 3), ("L9", 11), ("L10", 3), ("P3", 12), ("RF1", 1), ("G4", 16)):
         chk.require_instances(r, n)
